@@ -20,6 +20,12 @@ CHECKS = {
          "Trusts the harness multipart parser (written from RFC 2046/7233).", "property-based testing (proptest) with strict parser oracle", "6/C06"),
  "C07": ("fault_enumeration", "Every fault (early end, error, extra byte, extra chunk) at every chunk position of every composition of ranges of length 1..8 into <=4 chunks, for 200, single 206 and each part of 2-3 part multipart responses, with Pending/empty fillers; plus random longer cases. Compared with the fault-free twin.",
          "Harness entity streams are fused; the consumer polls until a terminal event.", "exhaustive fault injection + proptest, differential against fault-free twin", "6/C07"),
+ "C08": ("exploration", "Model-based stateful testing of streaming_body (identity): every history of <= 4 operations over a 17-operation alphabet for chunk sizes {1,2,3,4,7} is enumerated, longer histories and chunk sizes up to 65536 by proptest; oracle is an in-memory model of the accepted bytes (prefix invariant after every step, flush visibility, non-empty frames, clean end).",
+         "Single-threaded interleaving of producer operations and consumer polls; schedules are C10's subject.", "stateful model-based testing: bounded-exhaustive histories + proptest", "6/C08"),
+ "C09": ("exploration", "The same history generator with gzip negotiated (levels 1-9, chunk sizes 1..65536, four payload classes): the body must be exactly one valid gzip member decoding to the bytes written, and after every flush a prefix decoder must reproduce everything written so far. Oracle: own RFC 1951/1952 decoder, cross-checked against flate2 on every case.",
+         "One known finding (incomplete sync flush of the pinned flate2 after a large write) is listed in KNOWN_FINDINGS.txt and matched by an exact signature.", "stateful model-based testing with independent decoder oracle: bounded-exhaustive histories + proptest", "6/C09"),
+ "C11": ("exploration", "Abort or body-drop inserted at every position of every base history of <= 3 operations (identity and gzip) followed by five more producer operations, proptest for long histories, plus memory-release measurement with a counting allocator and the gzip bounded-acceptance sub-check; the interleaved part (abort in producer programs under the C10 scheduler) is merged in.",
+         "A flush with nothing to flush may succeed after the body is gone. Live-heap measurement is single-threaded.", "stateful model-based testing: exhaustive fault positions + proptest + schedule enumeration", "6/C11"),
  "C12": ("exploration", "Per-step monitor (size hint brackets the bytes still to come, exact where required; end-of-stream flag never followed by data or error) evaluated on the traces of the serve, fault, streaming and Body::from engines.",
          "Entity contract: exact bytes or an early Err. Streaming-body traces are added by the stream engine.", "property-based testing: retrospective invariant over generated drain traces", "6/C12"),
  "C13": ("exploration", "Random + grammar-derived near-miss + boundary-number request generation (all methods, repeated headers, arbitrary HeaderValue bytes) against entities of length 0..2^64-1; oracle: no panic in serve or drain, status set, 405 rule, entity untouched for other methods.",
